@@ -1,5 +1,5 @@
 CONSTANTS MaxEdits = 2
- Shapes = {"one", "two", "dir", "fg", "txt"}
+ Shapes = {"one", "two", "dir", "od", "fg", "txt"}
  CfgIds = {"default", "sha256only"}
  UseCache = TRUE
  Flaw_Concat = TRUE
